@@ -117,6 +117,67 @@ Definition inherits_bases_of (w : world) (c s : nat) (before after : list nat) :
   exists r, find_cls c (w_classes w) = Some r /\ c_mro r = before ++ s :: after /\
             forallb (fun m => match own_ob w m with None => true | Some _ => false end) before = true.
 
+(* Executable forms of the shape facts (the harness evaluates them on the class layout it reads
+   back from CPython; Proofs/MixinsProofs.v proves each of them sufficient for its Prop).
+   Type arguments and TypeVars are tokens there. *)
+Definition tok_eqb (a b : val) : bool := match a, b with VTok x, VTok y => Nat.eqb x y | _, _ => false end.
+Definition toks_eqb (a b : list val) : bool := list_eqb tok_eqb a b.
+
+Fixpoint first_generic_args (bases : list val) : option (list val) :=
+  match bases with
+  | [] => None
+  | VAlias VGeneric ts :: _ => Some ts
+  | _ :: r => first_generic_args r
+  end.
+
+Definition direct_generic_b (w : world) (c : nat) (ts : list val) : bool :=
+  match lookup_ob w c with
+  | Some bases => forallb is_base bases && distinct_keys [] ts &&
+                  match first_generic_args bases with Some ts' => toks_eqb ts' ts | None => false end
+  | None => false
+  end.
+
+Fixpoint binding_scan (w : world) (bases : list val) (ts xs : list val) : bool :=
+  match bases with
+  | VCls _ :: r => binding_scan w r ts xs
+  | VAlias (VCls d) xs' :: post =>
+      toks_eqb xs' xs && forallb is_base post && negb (existsb is_generic_alias post) && direct_generic_b w d ts
+  | _ => false
+  end.
+
+Definition binding_subclass_b (w : world) (c : nat) (ts xs : list val) : bool :=
+  match lookup_ob w c with Some bases => binding_scan w bases ts xs | None => false end.
+
+(* the instance was made as C[xs]() / as C() *)
+Definition oc_matches (oc : option val) (args : option (list val)) : Prop :=
+  match oc, args with
+  | None, None => True
+  | Some (VAlias _ xs), Some ys => xs = ys
+  | _, _ => False
+  end.
+
+Definition oc_matches_b (oc : option val) (args : option (list val)) : bool :=
+  match oc, args with
+  | None, None => true
+  | Some (VAlias _ xs), Some ys => toks_eqb xs ys
+  | _, _ => false
+  end.
+
+(* "class c, instantiated like oc, has shape s" *)
+Inductive shape_holds (w : world) (c : nat) (oc : option val) : shape -> Prop :=
+| SH_direct : forall ts args, direct_generic w c ts -> oc_matches oc args -> shape_holds w c oc (ShDirect ts args)
+| SH_binding : forall ts xs, binding_subclass w c ts xs -> shape_holds w c oc (ShBinding ts xs)
+| SH_non_generic : lookup_ob w c = None -> shape_holds w c oc ShNonGeneric
+| SH_other : shape_holds w c oc ShOther.
+
+Definition shape_holds_b (w : world) (c : nat) (oc : option val) (s : shape) : bool :=
+  match s with
+  | ShDirect ts args => direct_generic_b w c ts && oc_matches_b oc args
+  | ShBinding ts xs => binding_subclass_b w c ts xs
+  | ShNonGeneric => match lookup_ob w c with None => true | Some _ => false end
+  | ShOther => true
+  end.
+
 (* ------------------------------------------------------------------------------------------ *)
 (* Part B: decorated methods                                                                  *)
 
@@ -152,13 +213,54 @@ Definition spec_decorated_ok (ms : list string) (cd : list mdef) (r : outcome va
   | _ => false
   end.
 
-(* the domain in which the statement makes its claim: a decoration is an assignment of at most one
-   value per member to a method; transformations (if any) hand back something that still is the
-   decorated function; evaluating the other attributes of the instance does not fail *)
-Definition tr_keeps (d : deco) : bool := match d_tr d with TrDrop => false | _ => true end.
+(* the domain in which the statement makes its claim.  Per definition of the class body:
+   - a decoration is an assignment of at most one (hashable) value per member to a method;
+   - transformations (if any) hand back something that still is the decorated function;
+   - decorators made by create_decorator are applied to functions (their parameter is typed
+     C bound=Callable): not written above @classmethod / @staticmethod / @property;
+   - the other attributes of the instance (properties, class attributes) can be read without an
+     exception and are ordinary data, not callables that carry decorator attributes;
+   - `type_var` / `type_vars` are the properties of GenericMixin (not overridden by a method).
+   Over the whole body: dir() lists every name once. *)
+Definition tr_keeps (d : deco) : bool := match d_tr d with TrNone | TrKeep => true | _ => false end.
 Fixpoint nodup_str (l : list string) : bool :=
   match l with [] => true | x :: r => negb (existsb (String.eqb x) r) && nodup_str r end.
-Definition getter_ok (m : mdef) : bool := match m_wrap m with WGetter (ARaise _) => false | _ => true end.
+Definition simple_val (v : val) : bool :=
+  match v with
+  | VNone | VBool _ | VInt _ | VStr _ | VTok _ | VTuple _ | VList _ | VDict _ | VObj _ [] => true
+  | _ => false
+  end.
+Definition getter_ok (m : mdef) : bool :=
+  match m_wrap m with
+  | WGetter (ARaise _) => false
+  | WGetter (AVal v) => simple_val v && match m_outer m with [] => true | _ => false end
+  | WClassMethod | WStaticMethod => match m_outer m with [] => true | _ => false end
+  | WPlain => true
+  end.
+Definition reserved (name : string) : bool := String.eqb name "type_var" || String.eqb name "type_vars".
+Definition reserved_ok (m : mdef) : bool := negb (reserved (m_name m)) || negb (is_method m).
+
+Definition value_ok (d : deco) : bool := val_eqb (d_val d) (d_val d).    (* the value can be compared (not a dict) *)
+
+Definition claimed_def (m : mdef) : bool :=
+  forallb tr_keeps (all_decos m) && forallb value_ok (all_decos m) && nodup_str (map d_type (all_decos m)) &&
+  getter_ok m && reserved_ok m.
 
 Definition claimed (cd : list mdef) : bool :=
-  forallb (fun m => forallb tr_keeps (all_decos m) && nodup_str (map d_type (all_decos m)) && getter_ok m) cd.
+  forallb claimed_def cd && nodup_str (map m_name cd).
+
+(* two names for one object (alias = m1 in the class body) describe the same object *)
+Definition alias_consistent (cd : list mdef) : Prop :=
+  forall m1 m2, In m1 cd -> In m2 cd -> is_method m1 = true -> is_method m2 = true -> m_id m1 = m_id m2 ->
+    all_decos m1 = all_decos m2.
+
+Fixpoint nodup_nat (l : list nat) : bool :=
+  match l with [] => true | x :: r => negb (existsb (Nat.eqb x) r) && nodup_nat r end.
+
+(* known finding K9: get_decorated_functions skips every attribute whose name starts with "__", so a
+   decorated method with such a name (__call__, __enter__, a name like __x__) is never reported.
+   The guard of the _partial theorem: no decorated method has such a name. *)
+Definition dunder (name : string) : bool := String.prefix "__" name.
+Definition decorated_dunder (m : mdef) : bool :=
+  dunder (m_name m) && is_method m && match all_decos m with [] => false | _ => true end.
+Definition no_decorated_dunder (cd : list mdef) : bool := forallb (fun m => negb (decorated_dunder m)) cd.
